@@ -87,6 +87,12 @@ pub fn pred_to_json(p: &Predicate) -> J {
         ColumnLtConst(c, v) => cc("Lt", c, v),
         ColumnGeConst(c, v) => cc("Ge", c, v),
         ColumnLeConst(c, v) => cc("Le", c, v),
+        ColumnEqStr(c, v) => json!({"p":"ColStr","op":"Eq","col":c,"val":v}),
+        ColumnNeStr(c, v) => json!({"p":"ColStr","op":"Ne","col":c,"val":v}),
+        ColumnLtStr(c, v) => json!({"p":"ColStr","op":"Lt","col":c,"val":v}),
+        ColumnGtStr(c, v) => json!({"p":"ColStr","op":"Gt","col":c,"val":v}),
+        ColumnLeStr(c, v) => json!({"p":"ColStr","op":"Le","col":c,"val":v}),
+        ColumnGeStr(c, v) => json!({"p":"ColStr","op":"Ge","col":c,"val":v}),
         ColumnsEq(l, r) => cs("Eq", l, r),
         ColumnsNe(l, r) => cs("Ne", l, r),
         ColumnsLt(l, r) => cs("Lt", l, r),
@@ -120,6 +126,18 @@ pub fn pred_from(j: &J) -> Result<Predicate, String> {
                 "Lt" => ColumnLtConst(c, v),
                 "Ge" => ColumnGeConst(c, v),
                 "Le" => ColumnLeConst(c, v),
+                o => return Err(format!("bad op {o}")),
+            })
+        }
+        "ColStr" => {
+            let (c, v) = (u("col")?, j["val"].as_str().ok_or("val")?.to_string());
+            Ok(match j["op"].as_str().unwrap_or("") {
+                "Eq" => ColumnEqStr(c, v),
+                "Ne" => ColumnNeStr(c, v),
+                "Lt" => ColumnLtStr(c, v),
+                "Gt" => ColumnGtStr(c, v),
+                "Le" => ColumnLeStr(c, v),
+                "Ge" => ColumnGeStr(c, v),
                 o => return Err(format!("bad op {o}")),
             })
         }
@@ -159,6 +177,7 @@ fn expr_to_json(e: &IRExpression) -> J {
     match e {
         IRExpression::Column(i) => json!({"e":"Col","idx":i}),
         IRExpression::IntConstant(v) => json!({"e":"Int","val":v}),
+        IRExpression::StringConstant(v) => json!({"e":"Str","val":v}),
         IRExpression::Arithmetic { op, left, right } => {
             let o = match op {
                 ArithOp::Add => "Add",
@@ -176,6 +195,7 @@ fn expr_from(j: &J) -> Result<IRExpression, String> {
     match j["e"].as_str().unwrap_or("") {
         "Col" => Ok(IRExpression::Column(j["idx"].as_u64().ok_or("idx")? as usize)),
         "Int" => Ok(IRExpression::IntConstant(j["val"].as_i64().ok_or("val")?)),
+        "Str" => Ok(IRExpression::StringConstant(j["val"].as_str().ok_or("val")?.to_string())),
         "Arith" => {
             let op = match j["op"].as_str().unwrap_or("") {
                 "Add" => ArithOp::Add,
